@@ -7,6 +7,7 @@ import (
 	"fmt"
 	"math/rand"
 	"path/filepath"
+	"sort"
 	"strings"
 
 	"github.com/lindb/lindb/pkg/queue"
@@ -63,6 +64,9 @@ func genC05(rng *rand.Rand, tier string) *core.Plan {
 	if rng.Intn(4) == 0 {
 		p.Cfg["crash_create"] = 1 + rng.Intn(60) // the process dies at the n-th yield point of the queue's creation
 	}
+	// the acknowledgements and collections of a phase run in a task of their own, concurrently with the appenders
+	// (the replica loop acknowledges and the log manager collects while the write path appends), and die with them
+	p.Cfg["ack_par"] = rng.Intn(2)
 	phases := 1 + rng.Intn(4)
 	id := int64(0)
 	big := rng.Intn(3) == 0 // page roll-over heavy
@@ -78,10 +82,12 @@ func genC05(rng *rand.Rand, tier string) *core.Plan {
 				p.Ops = append(p.Ops, core.Op{K: "put", T: a, A: int64(size), B: id})
 			}
 		}
-		if rng.Intn(4) == 0 {
-			p.Ops = append(p.Ops, core.Op{K: "ack", A: int64(rng.Intn(100))})
-			if rng.Intn(2) == 0 {
-				p.Ops = append(p.Ops, core.Op{K: "gc"})
+		if rng.Intn(3) == 0 {
+			for k := 1 + rng.Intn(2); k > 0; k-- {
+				p.Ops = append(p.Ops, core.Op{K: "ack", A: int64(rng.Intn(101)), B: int64(rng.Intn(12))})
+				if rng.Intn(2) == 0 {
+					p.Ops = append(p.Ops, core.Op{K: "gc"})
+				}
 			}
 		}
 		p.Ops = append(p.Ops, core.Op{K: "end", S: []string{"sync", "reopen", "reopen", "crash", "crash"}[rng.Intn(5)]})
@@ -141,7 +147,12 @@ func safeGet(q queue.Queue, s int64) (data []byte, err error) {
 			err = fmt.Errorf("panic: %v", e)
 		}
 	}()
-	return q.Get(s)
+	d, err := q.Get(s)
+	if err != nil {
+		return nil, err
+	}
+	// Get hands out the bytes inside the mapped page: a copy, taken before the page can be collected
+	return append([]byte(nil), d...), nil
 }
 
 // verify reads every sequence above the queue ack and checks the ledger.
@@ -152,6 +163,11 @@ func (l *ledger) verify(q queue.Queue, when string, quiescent bool) {
 	seen := map[int64]int64{}
 	for s := ack + 1; s <= appended; s++ {
 		data, err := safeGet(q, s)
+		if err != nil && !quiescent && s <= q.AcknowledgedSeq() {
+			// acknowledged (and collected) while this read was on its way
+			c.Sim.Probe("read-overtaken-by-ack")
+			continue
+		}
 		if err != nil {
 			c.Violate("C05/get-failed", "%s: Get(%d) failed: %v (appended=%d ack=%d)", when, s, err, appended, ack)
 			return
@@ -184,8 +200,25 @@ func (l *ledger) verify(q queue.Queue, when string, quiescent bool) {
 	if !quiescent {
 		return
 	}
+	// messages the ledger never saw at a sequence can only sit at positions at or below the acknowledged one that it
+	// never read (acknowledged by the concurrent acker before the first read after their append)
+	hidden := 0
+	for s := int64(0); s <= ack; s++ {
+		if _, ok := l.idAt[s]; !ok {
+			hidden++
+		}
+	}
+	ids := make([]int64, 0, len(l.acked))
 	for id := range l.acked {
+		ids = append(ids, id)
+	}
+	sort.Slice(ids, func(i, j int) bool { return ids[i] < ids[j] })
+	for _, id := range ids {
 		s, ok := l.seqOf[id]
+		if !ok && hidden > 0 {
+			hidden--
+			continue
+		}
 		if !ok {
 			c.Violate("C05/acked-append-lost", "%s: append of message %d returned success but it is readable nowhere (appended=%d ack=%d)", when, id, appended, ack)
 			return
@@ -328,6 +361,46 @@ func runC05(c *core.RunCtx) {
 				running--
 			})
 		}
+		ackPar := c.Plan.C("ack_par", 0) == 1
+		doAcks := func() {
+			for _, o := range ops {
+				if crashedNow {
+					return
+				}
+				switch o.K {
+				case "ack":
+					if ackPar {
+						for i := int64(0); i < o.B; i++ {
+							sim.YieldNow()
+						}
+					}
+					app := q.AppendedSeq()
+					if app >= 0 {
+						target := (app + 1) * o.A / 100
+						sim.Event("ack %d", target-1)
+						q.SetAcknowledgedSeq(target - 1)
+					}
+				case "gc":
+					sim.Event("gc")
+					q.GC()
+				}
+			}
+		}
+		ackerDone := true
+		if ackPar {
+			for _, o := range ops {
+				if o.K == "ack" {
+					ackerDone = false
+				}
+			}
+			if !ackerDone {
+				sim.Fault("ack-gc-concurrent-with-appends")
+				sim.SpawnIn(inc, "acker", func() {
+					doAcks()
+					ackerDone = true
+				})
+			}
+		}
 		readerDone := true
 		if c.Plan.C("reader", 0) == 1 && running > 0 {
 			readerDone = false
@@ -339,7 +412,7 @@ func runC05(c *core.RunCtx) {
 				readerDone = true
 			})
 		}
-		sim.Await(func() bool { return crashedNow || (running == 0 && readerDone) })
+		sim.Await(func() bool { return crashedNow || (running == 0 && readerDone && ackerDone) })
 		sim.OnYield = nil
 		simrt.FailOpen = nil
 		if c.Violated() {
@@ -351,21 +424,8 @@ func runC05(c *core.RunCtx) {
 				return
 			}
 		}
-		for _, o := range ops {
-			if crashedNow {
-				break
-			}
-			switch o.K {
-			case "ack":
-				app := q.AppendedSeq()
-				if app >= 0 {
-					target := (app + 1) * o.A / 100
-					q.SetAcknowledgedSeq(target - 1)
-					sim.Event("ack %d", target-1)
-				}
-			case "gc":
-				q.GC()
-			}
+		if !ackPar && !crashedNow {
+			doAcks()
 		}
 		switch {
 		case crashedNow:
